@@ -595,7 +595,7 @@ func emitType(b *strings.Builder, p *sdl.Program, t *sdl.Type) {
 		fmt.Fprintf(b, "%s%s() {}\n", r, fn)
 	}
 	if t.HasKind {
-		fmt.Fprintf(b, "%sSimKind() string { return c.Sim.Kind }\n", r)
+		fmt.Fprintf(b, "%sSimKind() string { return c.Sim.OnKind() }\n", r)
 	}
 	if t.Proc {
 		fmt.Fprintf(b, "%sPostProcessBeforeInitialization(component any, componentName string) (any, error) {\n\treturn c.Sim.OnProc(\"before\", component, componentName)\n}\n", r)
